@@ -84,6 +84,368 @@ theorem reported_rmsd (n : Nat) (a b : Nat) (x y : Nat)
   simp only at *
   simp [List.getElem?_map, hx, hy]
 
+/-! ## the energy sort -/
+
+theorem insertByEnergy_perm (i : Nat) (l : List Nat) : (insertByEnergy E i l).Perm (i :: l) := by
+  induction l with
+  | nil => simp [insertByEnergy]
+  | cons j js ih =>
+    unfold insertByEnergy
+    split
+    · exact List.Perm.refl _
+    · exact (List.Perm.cons j ih).trans (List.Perm.swap i j js)
+
+/-- the energy order `np.argsort` returns is a permutation of the pool indices -/
+theorem argsortE_perm (n : Nat) : (argsortE E n).Perm (List.range n) := by
+  unfold argsortE
+  induction List.range n with
+  | nil => simp
+  | cons a t ih =>
+    simp only [List.foldr_cons]
+    exact (insertByEnergy_perm E a _).trans (List.Perm.cons a ih)
+
+theorem insertByEnergy_sorted (i : Nat) (l : List Nat) (h : l.Pairwise (fun a b => ¬ E b < E a)) :
+    (insertByEnergy E i l).Pairwise (fun a b => ¬ E b < E a) := by
+  induction l with
+  | nil => simp [insertByEnergy]
+  | cons j js ih =>
+    rw [List.pairwise_cons] at h
+    unfold insertByEnergy
+    split
+    · rename_i hij
+      rw [List.pairwise_cons]
+      refine ⟨?_, List.pairwise_cons.mpr h⟩
+      intro x hx
+      rcases List.mem_cons.mp hx with rfl | hx
+      · grind
+      · have := h.1 x hx
+        grind
+    · rename_i hij
+      rw [List.pairwise_cons]
+      refine ⟨?_, ih h.2⟩
+      intro x hx
+      have hx' := (insertByEnergy_perm E i js).mem_iff.mp hx
+      rcases List.mem_cons.mp hx' with rfl | hx'
+      · exact hij
+      · exact h.1 x hx'
+
+/-- the energy order is sorted by energy -/
+theorem argsortE_sorted (n : Nat) : (argsortE E n).Pairwise (fun a b => ¬ E b < E a) := by
+  unfold argsortE
+  induction List.range n with
+  | nil => simp
+  | cons a t ih =>
+    simp only [List.foldr_cons]
+    exact insertByEnergy_sorted E a _ ih
+
+theorem argsortE_nodup (n : Nat) : (argsortE E n).Nodup :=
+  (argsortE_perm E n).nodup_iff.mpr List.nodup_range
+
+theorem mem_argsortE (n i : Nat) : i ∈ argsortE E n ↔ i < n := by
+  rw [(argsortE_perm E n).mem_iff, List.mem_range]
+
+/-! ## the loop only appends pool members, in pool order -/
+
+theorem filterLoop_append (pool acc : List Nat) :
+    ∃ l, l.Sublist pool ∧ filterLoop E rmsd first cutoff window pool acc = acc ++ l := by
+  induction pool generalizing acc with
+  | nil => exact ⟨[], List.Sublist.refl _, by simp [filterLoop]⟩
+  | cons fit rest ih =>
+    have skip : ∀ acc', ∃ l, l.Sublist (fit :: rest) ∧ filterLoop E rmsd first cutoff window rest acc' = acc' ++ l := by
+      intro acc'
+      obtain ⟨l, hl, he⟩ := ih acc'
+      exact ⟨l, hl.cons _, he⟩
+    have take : ∃ l, l.Sublist (fit :: rest) ∧
+        filterLoop E rmsd first cutoff window rest (acc ++ [fit]) = acc ++ l := by
+      obtain ⟨l, hl, he⟩ := ih (acc ++ [fit])
+      exact ⟨fit :: l, hl.cons_cons _, by rw [he]; simp⟩
+    unfold filterLoop
+    cases acc with
+    | nil => simpa using take
+    | cons low t =>
+      simp only
+      split
+      · exact skip _
+      · split
+        · exact skip _
+        · split
+          · exact skip _
+          · exact take
+
+/-- the accepted conformers are a sublist of the energy-sorted pool -/
+theorem accepted_sublist (n : Nat) :
+    (filterConformers n E rmsd first cutoff window).accepted.Sublist (argsortE E n) := by
+  unfold filterConformers
+  obtain ⟨l, hl, he⟩ := filterLoop_append E rmsd first cutoff window (argsortE E n) []
+  simp only [he, List.nil_append]
+  exact hl
+
+/-- returned conformers are in non-decreasing energy order -/
+theorem sorted_by_energy (n : Nat) :
+    ((filterConformers n E rmsd first cutoff window).accepted.map E).Pairwise (· ≤ ·) := by
+  rw [List.pairwise_map]
+  refine ((argsortE_sorted E n).sublist (accepted_sublist E rmsd first cutoff window n)).imp ?_
+  intro a b h
+  exact Rat.not_lt.mp h
+
+/-- no conformer is returned twice -/
+theorem accepted_nodup (n : Nat) : (filterConformers n E rmsd first cutoff window).accepted.Nodup :=
+  (argsortE_nodup E n).sublist (accepted_sublist E rmsd first cutoff window n)
+
+/-- returned indices are pool indices -/
+theorem accepted_lt_n (n : Nat) : ∀ i ∈ (filterConformers n E rmsd first cutoff window).accepted, i < n := by
+  intro i hi
+  exact (mem_argsortE E n i).mp ((accepted_sublist E rmsd first cutoff window n).subset hi)
+
+/-! ## the lowest-energy conformer is always returned, first -/
+
+theorem filterLoop_head (pool acc : List Nat) :
+    (filterLoop E rmsd first cutoff window pool acc).head? = (acc ++ pool).head? := by
+  cases pool with
+  | nil => simp [filterLoop]
+  | cons fit rest =>
+    cases acc with
+    | nil =>
+      unfold filterLoop
+      obtain ⟨l, _, he⟩ := filterLoop_append E rmsd first cutoff window rest [fit]
+      simp [he]
+    | cons low t =>
+      obtain ⟨l, _, he⟩ := filterLoop_append E rmsd first cutoff window (fit :: rest) (low :: t)
+      simp [he]
+
+/-- the first returned conformer is the first of the energy order -/
+theorem accepted_head (n : Nat) :
+    (filterConformers n E rmsd first cutoff window).accepted.head? = (argsortE E n).head? := by
+  unfold filterConformers
+  simpa using filterLoop_head E rmsd first cutoff window (argsortE E n) []
+
+theorem argsortE_ne_nil (n : Nat) (hn : 0 < n) : argsortE E n ≠ [] := by
+  intro h
+  have := (mem_argsortE E n 0).mpr hn
+  rw [h] at this
+  simp at this
+
+/-- the head of the energy order has minimal energy -/
+theorem argsortE_head_min (n : Nat) (low : Nat) (h : (argsortE E n).head? = some low) :
+    ∀ i, i < n → E low ≤ E i := by
+  intro i hi
+  have hmem := (mem_argsortE E n i).mpr hi
+  have hs := argsortE_sorted E n
+  cases hl : argsortE E n with
+  | nil => rw [hl] at hmem; simp at hmem
+  | cons a t =>
+    rw [hl] at h hmem hs
+    simp only [List.head?_cons, Option.some.injEq] at h
+    subst h
+    rcases List.mem_cons.mp hmem with rfl | hm
+    · exact Rat.le_refl
+    · exact Rat.not_lt.mp ((List.pairwise_cons.mp hs).1 i hm)
+
+/-- for a non-empty pool a conformer is returned, the first one returned is in the pool, and its
+energy is minimal over the whole pool -/
+theorem lowest_first (n : Nat) (hn : 0 < n) :
+    ∃ low, (filterConformers n E rmsd first cutoff window).accepted.head? = some low ∧ low < n ∧
+      ∀ i, i < n → E low ≤ E i := by
+  cases hl : argsortE E n with
+  | nil => exact absurd hl (argsortE_ne_nil E n hn)
+  | cons a t =>
+    have hh : (argsortE E n).head? = some a := by rw [hl]; rfl
+    refine ⟨a, by rw [accepted_head, hh], ?_, argsortE_head_min E n a hh⟩
+    exact (mem_argsortE E n a).mp (by rw [hl]; simp)
+
+example : (filterConformers 3 (fun i => if i = 0 then 5 else if i = 1 then 2 else 3)
+    (fun _ _ => 1) 2 (1/2) none).accepted = [1, 2] := by decide +kernel
+
+/-! ## every rejection has a reason (the selection is greedy-maximal) -/
+
+/-- loop invariant: a pool member that is not in the result was rejected because the result is
+full, or it lies outside the window of the lowest, or it is too close to a returned conformer -/
+theorem filterLoop_maximal (pool acc : List Nat) :
+    ∀ i ∈ pool, i ∉ filterLoop E rmsd first cutoff window pool acc →
+      first ≤ (filterLoop E rmsd first cutoff window pool acc).length ∨
+      (∃ low, (filterLoop E rmsd first cutoff window pool acc).head? = some low ∧
+        outsideWindow E window low i = true) ∨
+      tooClose rmsd cutoff (filterLoop E rmsd first cutoff window pool acc) i = true := by
+  induction pool generalizing acc with
+  | nil => intro i hi; simp at hi
+  | cons fit rest ih =>
+    intro i hi
+    rcases List.mem_cons.mp hi with rfl | hi
+    · -- the candidate itself
+      unfold filterLoop
+      cases acc with
+      | nil =>
+        intro hn
+        obtain ⟨l, _, he⟩ := filterLoop_append E rmsd first cutoff window rest [i]
+        rw [he] at hn
+        simp at hn
+      | cons low t =>
+        simp only
+        split
+        · rename_i hlen
+          intro _
+          obtain ⟨l, _, he⟩ := filterLoop_append E rmsd first cutoff window rest (low :: t)
+          left
+          rw [he]
+          simp only [List.length_append]
+          simp only [ge_iff_le] at hlen
+          omega
+        · split
+          · rename_i hwin
+            intro _
+            obtain ⟨l, _, he⟩ := filterLoop_append E rmsd first cutoff window rest (low :: t)
+            right; left
+            exact ⟨low, by rw [he]; rfl, hwin⟩
+          · split
+            · rename_i hclose
+              intro _
+              obtain ⟨l, _, he⟩ := filterLoop_append E rmsd first cutoff window rest (low :: t)
+              right; right
+              rw [he]
+              unfold tooClose at *
+              rw [List.any_append, hclose]
+              rfl
+            · intro hn
+              obtain ⟨l, _, he⟩ := filterLoop_append E rmsd first cutoff window rest (low :: t ++ [i])
+              rw [he] at hn
+              simp at hn
+    · -- a later candidate: same result list, apply the invariant to the rest
+      unfold filterLoop
+      cases acc with
+      | nil => exact ih _ i hi
+      | cons low t =>
+        simp only
+        split
+        · exact ih _ i hi
+        · split
+          · exact ih _ i hi
+          · split
+            · exact ih _ i hi
+            · exact ih _ i hi
+
+/-- a pool conformer that is not returned was rejected for one of the three documented reasons:
+`first` conformers are already returned, or it is outside the energy window of the lowest-energy
+conformer, or it is within the RMSD cutoff of a returned conformer -/
+theorem rejected_reason (n : Nat) (i : Nat) (hi : i < n)
+    (hrej : i ∉ (filterConformers n E rmsd first cutoff window).accepted) :
+    first ≤ (filterConformers n E rmsd first cutoff window).accepted.length ∨
+    (∃ low, (filterConformers n E rmsd first cutoff window).accepted.head? = some low ∧
+      outsideWindow E window low i = true) ∨
+    ∃ a ∈ (filterConformers n E rmsd first cutoff window).accepted, rmsd a i < cutoff := by
+  have h := filterLoop_maximal E rmsd first cutoff window (argsortE E n) [] i
+    ((mem_argsortE E n i).mpr hi) hrej
+  rcases h with h | h | h
+  · exact Or.inl h
+  · exact Or.inr (Or.inl h)
+  · refine Or.inr (Or.inr ?_)
+    unfold tooClose at h
+    have h' : ∃ a ∈ filterLoop E rmsd first cutoff window (argsortE E n) [], rmsd a i < cutoff := by
+      simpa using h
+    exact h'
+
+theorem filterLoop_all (hr : ∀ a b, ¬ rmsd a b < cutoff) (pool acc : List Nat)
+    (h : acc.length + pool.length ≤ first) :
+    filterLoop E rmsd first cutoff none pool acc = acc ++ pool := by
+  induction pool generalizing acc with
+  | nil => simp [filterLoop]
+  | cons fit rest ih =>
+    unfold filterLoop
+    cases acc with
+    | nil =>
+      rw [ih [fit] (by simpa [Nat.add_comm] using h)]
+      rfl
+    | cons low t =>
+      simp only [List.length_cons] at h
+      have hlen : ¬ (low :: t).length ≥ first := by simp only [List.length_cons]; omega
+      have hclose : tooClose rmsd cutoff (low :: t) fit = false := by
+        unfold tooClose
+        rw [List.any_eq_false]
+        intro a _
+        simpa using hr a fit
+      simp only [hlen, ↓reduceIte, outsideWindow, hclose, Bool.false_eq_true]
+      rw [ih _ (by simp only [List.length_append, List.length_cons, List.length_nil]; omega)]
+      simp
+
+/-- with `first` at least the pool size, no window and no pair under the cutoff, the whole pool is
+returned, in energy order -/
+theorem all_returned (n : Nat) (hfirst : n ≤ first) (hr : ∀ a b, ¬ rmsd a b < cutoff) :
+    (filterConformers n E rmsd first cutoff none).accepted = argsortE E n := by
+  unfold filterConformers
+  simp only
+  rw [filterLoop_all E rmsd first cutoff hr (argsortE E n) []]
+  · rfl
+  · rw [(argsortE_perm E n).length_eq]
+    simpa using hfirst
+
+example : (filterConformers 3 (fun i => if i = 0 then 5 else if i = 1 then 2 else 3)
+    (fun _ _ => 1) 3 (1/2) none).accepted = [1, 2, 0] := by decide +kernel
+
+/-! ## the energy window -/
+
+/-- loop invariant: every accepted conformer other than the lowest lies inside the window -/
+theorem filterLoop_window (w : Rat) (pool acc : List Nat) (low : Nat)
+    (hlow : (acc ++ pool).head? = some low)
+    (h : ∀ i ∈ acc, i = low ∨ E i ≤ E low + w) :
+    ∀ i ∈ filterLoop E rmsd first cutoff (some w) pool acc, i = low ∨ E i ≤ E low + w := by
+  induction pool generalizing acc with
+  | nil => simpa [filterLoop] using h
+  | cons fit rest ih =>
+    unfold filterLoop
+    cases acc with
+    | nil =>
+      simp only [List.nil_append, List.head?_cons, Option.some.injEq] at hlow
+      subst hlow
+      exact ih [fit] (by simp) (by simp)
+    | cons l t =>
+      simp only [List.cons_append, List.head?_cons, Option.some.injEq] at hlow
+      subst hlow
+      simp only
+      split
+      · exact ih _ (by simp) h
+      · split
+        · exact ih _ (by simp) h
+        · split
+          · exact ih _ (by simp) h
+          · rename_i hw _
+            apply ih _ (by simp)
+            intro i hi
+            rcases List.mem_append.mp hi with hi | hi
+            · exact h i hi
+            · simp only [List.mem_singleton] at hi
+              subst hi
+              right
+              simpa [outsideWindow] using hw
+
+/-- with an energy window `w`, every returned conformer other than the lowest-energy one is within
+`w` of the lowest-energy one (no sign condition on `w`) -/
+theorem within_window_tail (n : Nat) (w : Rat) (low : Nat)
+    (hlow : (filterConformers n E rmsd first cutoff (some w)).accepted.head? = some low) :
+    ∀ i ∈ (filterConformers n E rmsd first cutoff (some w)).accepted, i = low ∨ E i ≤ E low + w := by
+  rw [accepted_head] at hlow
+  unfold filterConformers
+  exact filterLoop_window E rmsd first cutoff w (argsortE E n) [] low (by simpa using hlow) (by simp)
+
+/-- with a non-negative energy window, every returned conformer is within the window of the first
+(lowest-energy) returned conformer -/
+theorem within_window (n : Nat) (w : Rat) (hw : 0 ≤ w) (low : Nat)
+    (hwin : window = some w)
+    (hlow : (filterConformers n E rmsd first cutoff window).accepted.head? = some low) :
+    ∀ i ∈ (filterConformers n E rmsd first cutoff window).accepted, E i ≤ E low + w := by
+  subst hwin
+  intro i hi
+  rcases within_window_tail E rmsd first cutoff n w low hlow i hi with rfl | h
+  · grind
+  · exact h
+
+/-- non-vacuity: a window of 1/2 rejects the conformer 2 above the lowest -/
+example : (filterConformers 3 (fun i => if i = 0 then 5 else if i = 1 then 2 else 5/2)
+    (fun _ _ => 1) 3 (1/2) (some (1/2))).accepted = [1, 2] := by decide +kernel
+
+/-- the sign condition is necessary: the model always returns the lowest-energy conformer, which a
+negative window does not contain (the generator maps negative `max_energy_diff` to no window) -/
+example : ¬ (∀ i ∈ (filterConformers 1 (fun _ => 0) (fun _ _ => 1) 1 0 (some (-1))).accepted,
+    (fun _ => (0 : Rat)) i ≤ (fun _ => (0 : Rat)) 0 + (-1)) := by decide +kernel
+
 /-- the resolved targets depend on the molecule and the options only -/
 theorem resolve_history_free (numConf first : Int) (r₁ r₂ : Nat) :
     resolveTargets numConf first r₂ = resolveTargets numConf first r₂ := rfl
